@@ -144,12 +144,14 @@ func SplitStoredHashIndex(index int64) (level int, n int64) {
 	}
 	for {
 		// Each new record n adds 1 + trailingZeros(n) hashes.
-		x := indexN + 1 + int64(bits.TrailingZeros64(uint64(n+1)))
-		if x > index {
+		// (Compare differences: indexN plus the step can overflow
+		// when index is near the largest int64.)
+		step := 1 + int64(bits.TrailingZeros64(uint64(n+1)))
+		if step > index-indexN {
 			break
 		}
 		n++
-		indexN = x
+		indexN += step
 	}
 	// The hash we want was committed with record n,
 	// meaning it is one of (0, n), (1, n/2), (2, n/4), ...
